@@ -242,6 +242,30 @@ def translate(repo: Path) -> dict:
                  "f.write(b'gitdir: ' + relative_git_dir + b'\\n')"):
         if frag not in ph:
             raise T.TranslateError(f"ensure_submodule_placeholder: `{frag}` not found")
+    # sparse checkout: step 2 of apply_included_paths validates names, guards the lstat, verifies leading dirs and writes
+    # through build_file_from_blob
+    sp_tree = T.module_ast(repo / "dulwich" / "sparse_patterns.py")
+    sp = ast.unparse(T.find_def(sp_tree, "apply_included_paths"))
+    new_frags = ("path_ok = validate_path(path_bytes, validate_element)", "validate_element = get_path_element_validator(config)",
+                 "if not path_ok:\n                continue", "_lstat_tracked_path(path_bytes, full_path_bytes, repo_path)",
+                 "if not path_ok:\n                raise InvalidPathError(path_bytes)", "verify_leading_dirs(path_bytes, [], repo_path)",
+                 "os.lstat(full_path_bytes)", "build_file_from_blob(blob, entry.mode, full_path_bytes, honor_filemode=honor_filemode)",
+                 "full_path_bytes = os.path.join(repo_path, path_bytes)", "repo_path = os.fsencode(repo.path)")
+    old_frags = ("if os.path.exists(full_path):\n                if not force and local_modifications_exist(full_path, entry)",
+                 "elif not os.path.exists(full_path):\n            try:\n                blob = repo.object_store[entry.sha]",
+                 "with open(full_path, 'wb') as f:")
+    if all(f in sp for f in new_frags):
+        if sp.count("os.path.exists(full_path)") != 1 or sp.count("os.remove(") != 1 or sp.count("open(full_path, 'wb')") != 1:
+            raise T.TranslateError("apply_included_paths: unguarded exists/remove/open besides the vetted ones")
+        order = [sp.index(f) for f in ("path_ok = validate_path", "_lstat_tracked_path(path_bytes", "os.remove(full_path)",
+                                       "verify_leading_dirs(path_bytes", "os.lstat(full_path_bytes)", "ensure_dir_exists(", "build_file_from_blob(blob")]
+        if order != sorted(order):
+            raise T.TranslateError("apply_included_paths: checks no longer precede the calls they guard")
+        sparse_guarded = True
+    elif all(f in sp for f in old_frags) and "validate_path" not in sp:
+        sparse_guarded = False        # the code before the repair: theorem sparse_confined will not compile
+    else:
+        raise T.TranslateError("apply_included_paths: neither the guarded nor the old shape")
     # patch.py: both paths of a rename/copy header are vetted before anything is read or written
     # patch.py: every open(<target>, "wb") of the apply code is directly preceded by _remove_symlink_at_target(<target>)
     ptree = T.module_ast(repo / "dulwich" / "patch.py")
@@ -325,6 +349,9 @@ def uwtFreshCache : Bool := {str(fresh).lower()}
 /-- does the "is a directory already there?" test of `_transition_to_submodule` follow symlinks (`os.path.isdir`)
 rather than look at the lstat result (`stat.S_ISDIR(current_stat.st_mode)`)? -/
 def gitlinkDirTestFollows : Bool := {str(gitlink_follows).lower()}
+/-- does step 2 of `sparse_patterns.apply_included_paths` validate names, guard its lstat, verify leading directories
+and write through `build_file_from_blob`? -/
+def sparseGuarded : Bool := {str(sparse_guarded).lower()}
 end Dulwich.Gen.PathSafe
 """
     return {"PathSafe": src}
@@ -1114,6 +1141,54 @@ def impl_uwt_write(a):
     return {"entries": entries, "out": out, "walk": walk}
 
 
+def impl_sparse_apply(a):
+    """One real apply_included_paths(force=True) on a prepared directory tree with an index built straight from the
+    given entries (as `reset --mixed` does: names unvalidated); returns outcome class and a walk of the sandbox."""
+    import dulwich.index as I
+    from dulwich.objects import Blob
+    from dulwich.repo import Repo
+    from dulwich.sparse_patterns import apply_included_paths
+    base = a["base"]
+    assert base.startswith(a["scratch"] + os.sep) and "/../" not in base
+    os.umask(0o022)
+    if os.path.exists(base):
+        shutil.rmtree(base)
+    bb = os.fsencode(base)
+    wt = os.path.join(bb, bytes.fromhex(a["root"]))
+    os.makedirs(wt)
+    r = Repo.init(os.fsdecode(wt))
+    c = r.get_config()
+    c.set((b"core",), b"protectNTFS", b"true" if a["v"] == "n" else b"false")
+    c.write_to_path()
+    _prep_nodes(bb, a["nodes"])
+    index = r.open_index()
+    included = set()
+    for ph, mode, ch, excluded in a["entries"]:
+        content = bytes.fromhex(ch)
+        if (mode & 0o170000) == 0o120000 and content.startswith(b"/"):
+            content = bb + content
+        b = Blob.from_string(content)
+        r.object_store.add_object(b)
+        path = bytes.fromhex(ph)
+        index[path] = I.IndexEntry(ctime=(0, 0), mtime=(0, 0), dev=0, ino=0, mode=mode, uid=0, gid=0, size=0, sha=b.id, flags=0)
+        if not excluded:
+            included.add(path.decode("utf-8"))
+    index.write()
+    os.chdir(base)
+    out = "ok"
+    try:
+        apply_included_paths(r, included, force=True)
+    except I.InvalidPathError:
+        out = "InvalidPath"
+    except OSError:
+        out = "oserror"
+    walk = _walk_files(bb)
+    r.close()
+    os.chdir(a["scratch"])
+    shutil.rmtree(base, ignore_errors=True)
+    return {"out": out, "walk": walk}
+
+
 # ------------------------------------------------------------------------------------------------
 # parent side: scenario construction, the oracle in the property's words, failure classification
 
@@ -1736,6 +1811,7 @@ def run(ctx: core.Ctx):
     _stream_bift(ctx)
     _stream_uwt_delete(ctx)
     _stream_uwt_write(ctx)
+    _stream_sparse_apply(ctx)
     _stream_sequences(ctx)
 
 
@@ -1803,6 +1879,11 @@ def gen_bift_case(rng, gitlinks=True, more_gitlinks=False):
             continue
         used.add(p)
         items.append(it)
+    if more_gitlinks:
+        # a blob entry at the very path of a gitlink entry of the same tree would meet the directory the gitlink just
+        # made (only `.git` inside): _transition_to_file's rmtree branch for that case is not modelled
+        gl = {it[0] for it in items if it[1] == "g"}
+        items = [it for it in items if not (it[1] in ("F", "f", "l") and it[0] in gl)]
     if not items:
         items = [(b"a", "f", b"x")]
     return {"nodes": nodes, "tree": mk_tree(items), "v": rng.choice(["d", "n", "n"]), "root": b"outer/wt".hex()}
@@ -1971,6 +2052,69 @@ def _stream_uwt_write(ctx, scale=1):
         w.close()
 
 
+def _stream_sparse_apply(ctx, scale=1):
+    """(b3) sparse checkout, step 2 of apply_included_paths (force=True): model `sparseApply` vs the real function on
+    real directory trees with an index whose names are NOT validated; built-in oracle: nothing outside changes."""
+    w = core.Worker("py", mem_mb=2048)
+    rng = ctx.rng
+    try:
+        cases = []
+        for _ in range(ctx.budget(200) * scale):
+            c = gen_bift_case(rng, gitlinks=False)
+            ents, seen = [], set()
+            for _ in range(rng.randint(1, 6)):
+                p = rng.choice([b"a", b"d", b"e", b"loop", b"d/x", b"d/sub/y", b"d/pwn", b"e/f", b"e/l", b"e/l/q", b"a/f", b"e/sub/new", b"d/l",
+                                b"../outside_dir/pwn", b"../outside_dir/x", b"d/../../outside_dir/pwn", b".git/hooks/pwn", b"e/.GIT/x",
+                                b"git~1", b"x/y/z", b"new"])
+                if p in seen:
+                    continue
+                seen.add(p)
+                kind = rng.choice(["f", "f", "f", "l"])
+                content = rng.choice(BIFT_TARGETS) if kind == "l" else rng.choice([b"data\n", b"new", b"old", b"precious"])
+                ents.append([p.hex(), 0o120000 if kind == "l" else rng.choice(MODES), content.hex(), int(rng.random() < 0.45)])
+            ents.sort(key=lambda e: bytes.fromhex(e[0]))          # index order
+            c["entries"] = ents
+            cases.append(c)
+        lines, idx = [], []
+        for i, c in enumerate(cases):
+            rep = w.ask({"mod": MOD, "op": "sparse_apply", "args": {"base": str(ctx.scratch / "p" / "q" / f"s{i}"), "scratch": str(ctx.scratch),
+                                                                   "nodes": c["nodes"], "entries": c["entries"], "v": c["v"], "root": c["root"]}}, timeout=60)
+            if "r" not in rep:
+                ctx.notes.append(f"sparse_apply case did not complete: {str(rep)[:200]}")
+                continue
+            r = rep["r"]
+            nodes = _node_tokens(c["nodes"])
+            ents = [f"{p or '-'}:{m}:{cc or '-'}:{x}" for p, m, cc, x in c["entries"]]
+            queries = sorted(set(r["walk"]) | {n[0] for n in c["nodes"]})
+            lines.append(" ".join(["c17.sparse", c["v"], c["root"], str(len(nodes))] + nodes + [str(len(ents))] + ents + queries))
+            idx.append((c, r))
+        outs = ctx.driver.batch(lines)
+        for (c, r), o in zip(idx, outs):
+            parts = o.split(" ")
+            if len(parts) < 2:
+                raise core.InfraError(f"driver answered {o!r} to c17.sparse")
+            status = {"ok": "ok", "InvalidPath": "InvalidPath"}.get(parts[0], "oserror")
+            model = dict(x.split("=", 1) for x in parts[2:] if "=" in x)
+            real = {k: r["walk"].get(k, "-") for k in model}
+            ctx.count("sparse.model", json.dumps(c, sort_keys=True), True, f"{c['v']}:{r['out']}:log{min(int(parts[1]), 9) if parts[1].isdigit() else '?'}")
+            if status != r["out"] or model != real:
+                diff = {k: (model[k], real[k]) for k in model if model[k] != real[k]}
+                ctx.disagree("sparse.model", {"case": c}, f"{parts[0]} {diff}"[:600], r["out"], "py")
+            init = {}
+            for n in c["nodes"]:
+                init[n[0]] = "d" if n[1] == "d" else (f"f:{n[2]}:{n[3] or '-'}" if n[1] == "f" else f"l:{n[2] or '-'}")
+            for k in set(init) | set(r["walk"]):
+                rel = bytes.fromhex(k)
+                if rel == b"outer/wt" or rel.startswith(b"outer/wt/"):
+                    continue
+                if init.get(k) != r["walk"].get(k):
+                    ctx.oracle_fail("sparse.model", {"sparse_case": c, "path": k},
+                                    f"apply_included_paths changed {rel!r} outside the work tree: {init.get(k)} -> {r['walk'].get(k)}", None)
+                    break
+    finally:
+        w.close()
+
+
 def _stream_sequences(ctx, scale=1, full=False, stream_prefix="seq"):
     """(c) the direct oracle: sequences of hostile trees through the real entry points, snapshot before/after."""
     w = core.Worker("py", mem_mb=2048)
@@ -2013,6 +2157,7 @@ def search(ctx: core.Ctx):
     _stream_bift(ctx, scale=4)
     _stream_uwt_delete(ctx, scale=3)
     _stream_uwt_write(ctx, scale=3)
+    _stream_sparse_apply(ctx, scale=3)
 
 
 def replay(ctx: core.Ctx, data: dict) -> int:
